@@ -252,6 +252,7 @@ void Value::do_not_op() {
 
 void Value::do_prefix_compact_size() {
     data_value();
+    type = T_DATA;
     std::vector<uint8_t> prefix;
     size_t data_len = data.size();
     #define DLW(sz) \
